@@ -28,5 +28,11 @@ for m in d["msgs"]:
 for s in d.get("suspect_fields") or []:
     if s != "irismod.coinswap.Params.fee":
         print("FAILING-INPUT message-typed field with scalar customtype (families encode it differently):", s); found = True
+for sv in d.get("services") or []:
+    for fam in ("gogo", "pulsar"):
+        if (sv.get(fam) or []) != sv["desc"]:
+            missing = sorted(set(sv["desc"]) - set(sv.get(fam) or []))
+            extra = sorted(set(sv.get(fam) or []) - set(sv["desc"]))
+            print("FAILING-INPUT grpc.ServiceDesc of the %s family for %s differs from the descriptor: missing %s extra %s" % (fam, sv["name"], missing, extra)); found = True
 if not found:
     print("no concrete failing item found in the regenerated facts")
